@@ -3,7 +3,7 @@
 import os,sys,subprocess,glob,re,concurrent.futures,time
 V='/verif'
 REVERT={'X1':['C09','C08'],'X2':['C10'],'X3':['C06'],'X4':['C13'],'X5':['C13'],'X6':['C13'],'X7':['C15'],'X8':['C07','C10'],'X9':['C07'],
- 'X10':['C15'],'X11b':['C20'],'X12b':['C19'],'X12c':['C19'],'X13':['C06'],'X14':['C14'],'X15':['C10','C09','C15'],'X16':['C14'],'X17':['C20'],'X18':['C20'],'X19':['C10'],'X20':['C12'],'X21':['C11'],'X22':['C14']}
+ 'X10':['C15'],'X11b':['C20'],'X12b':['C19'],'X12c':['C19'],'X13':['C06'],'X14':['C14'],'X15':['C10','C09','C15'],'X16':['C14'],'X17':['C20'],'X18':['C20'],'X19':['C10'],'X20':['C12'],'X21':['C11'],'X22':['C14'],'X23':['C20']}
 def checks_for(name):
     m=re.match(r'(C\d\d)-',name)
     if m: return [m.group(1)]
